@@ -4,8 +4,8 @@ package c19
 //
 // Every exported key builder of fsm/key.go, every key builder of store/indexer.go (through the verif hooks) and the two
 // record families that share the store prefix "x/" (state-commitment tree nodes, commit-id records) are called with
-// component tuples restricted to what their callers admit (addresses: exactly 20 bytes - checkAddress / public-key
-// derived; chain ids, heights, stakes: any uint64; order ids: nil or 1..255 bytes - checkOrderId after a133151; hashes: 32
+// component tuples restricted to what their callers admit - the admitted lengths are DERIVED by probing the real Check()
+// functions (admitted_test.go; today: addresses exactly 20 bytes - checkAddress / public-key derived; chain ids, heights, stakes: any uint64; order ids: nil or 1..255 bytes - checkOrderId after a133151; hashes: 32
 // bytes; heightAndIndex keys: output of the height-and-index builder). Component VALUES are hostile: 0x00 / 0xFF runs,
 // embedded length bytes (0x08, 0x14), bytes that spell the tail of another builder's key, numbers around 2^8k.
 // Oracles, per pair of (builder, tuple):
@@ -116,23 +116,32 @@ func (g *keyGen) u64() uint64 {
 	}
 }
 
+// addr draws an address of a length the REAL stateless checks admit (admittedDomains: MessageSend / MessageUnstake probes).
 func (g *keyGen) addr() []byte {
+	lens := admittedDomains().addrLens
+	n := lens[g.n(len(lens), "a-len")]
 	switch g.n(5, "a-mode") {
 	case 0:
-		return wire.Bytes(20, wire.HostileFills[g.n(len(wire.HostileFills), "fill")])
+		return wire.Bytes(n, wire.HostileFills[g.n(len(wire.HostileFills), "fill")])
 	case 1:
-		return wire.Bytes(20, []byte{0x08, 0x14, 0x01, 0x02}[g.n(4, "lenbyte")])
+		return wire.Bytes(n, []byte{0x08, 0x14, 0x01, 0x02}[g.n(4, "lenbyte")])
 	case 2:
 		// an address that spells the tail of a committee key: [8]<stake>[..]
-		a := append([]byte{8}, be(g.u64())...)
-		return append(a, wire.Bytes(11, 0x14)...)
+		a := append(append([]byte{8}, be(g.u64())...), wire.Bytes(n, 0x14)...)
+		return a[:n]
 	case 3:
-		a := wire.Bytes(20, 0)
-		a[g.n(20, "pos")] = byte(g.n(256, "val"))
+		a := wire.Bytes(n, 0)
+		if n > 0 {
+			a[g.n(n, "pos")] = byte(g.n(256, "val"))
+		}
 		return a
 	default:
 		h := crypto.Hash([]byte{byte(g.n(4, "rnd"))})
-		return h[:20]
+		out := make([]byte, n)
+		for i := range out {
+			out[i] = h[i%32]
+		}
+		return out
 	}
 }
 
@@ -148,7 +157,8 @@ func (g *keyGen) hash32() []byte {
 }
 
 func (g *keyGen) orderID() []byte {
-	lens := []int{0, 1, 2, 7, 8, 9, 19, 20, 21, 32, 254, 255}
+	// lengths the REAL checks admit for an order id (edit / delete order, certificate results: admittedDomains)
+	lens := admittedDomains().orderIDLens
 	n := lens[g.n(len(lens), "olen")]
 	if n == 0 {
 		return nil // an empty order id arrives as nil (proto3)
